@@ -216,6 +216,7 @@ type inputRec struct {
 type Thread struct {
 	frames  []*Frame
 	waitCh  int       // channel object the thread is blocked receiving from (0: runnable)
+	waitSet []int     // select: channels any of which wakes the thread (the select is re-executed)
 	recv    ssa.Value // instruction receiving the value
 	commaOk bool
 	elemT   types.Type
